@@ -292,7 +292,7 @@ u_session(uint64_t idx, void *arg)
                 size_t rawn, wn;
                 gen_req(&rg, &H, &nq, (uint16_t)vh_rand(&rg));
                 wn = wire_of(&nq, H.serial, wire, raw, &rawn);
-                unsigned kind = (unsigned)vh_below(&rg, 5);
+                unsigned kind = (unsigned)vh_below(&rg, 6);
                 if (kind == 0 && rawn > 0) {
                     raw[vh_below(&rg, rawn)] ^= (unsigned char)(1u << vh_below(&rg, 8)); /* one flipped bit */
                     wn = rp_wire(H.serial, raw, rawn, wire);
@@ -307,6 +307,11 @@ u_session(uint64_t idx, void *arg)
                     wn = rp_wire(H.serial, raw, rawn, wire);
                 } else if (kind == 3) {
                     H.fail_alloc_at = (long)H.alloc_calls; /* the next allocation fails */
+                } else if (kind == 5 && H.serial) {
+                    /* line noise that stops right behind an illegal escape sequence */
+                    static const unsigned char junk[] = { 0x21, 0x00, 0x7f, 0xdb, 0x41 };
+                    memcpy(wire, junk, sizeof junk);
+                    wn = sizeof junk;
                 } /* kind 4: an intact frame whose reply nobody looks at */
                 rp_feed(&H, wire, wn);
                 H.out_n = 0;
